@@ -51,13 +51,13 @@ MODES = {   # label -> (type spec, matlab class, unwrap kind, C++ type in unwrap
     'ns-enum': (T('gt::Kind'), 'gt.Kind', 'unwrap_enum', 'gt::Kind', ''),
     'class-enum': (T('gt::Host::Mode'), 'gt.Host.Mode', 'unwrap_enum', 'gt::Host::Mode', ''),
 }
-DEFAULTS = {'int': '41', 'double': '4.5', 'bool': 'true', 'size_t': '43', 'char': "'q'", 'uchar': '200', 'string': '"dflt"',
+DEFAULTS = {'int': '41', 'double': '4.5', 'bool': 'true', 'size_t': 'size_t{0}', 'char': "'q'", 'uchar': '200', 'string': '"dflt"',
             'const-string-ref': '"ref, dflt"', 'Vector': 'Vector()', 'Matrix': 'Matrix::Identity(2, 2)',
             'Point2': 'Point2(1, 2)', 'Point3': 'Point3(1, 2, 3)',
             'obj-value': 'gt::Arg()', 'obj-cref': 'gt::Arg(1)', 'obj-shared': 'nullptr', 'obj-raw': 'nullptr',
             'ns-enum': 'gt::Kind::Cat', 'class-enum': 'gt::Host::Mode::SLOW',
-            'vec-int': 'std::vector<int>()', 'vec-arg-cref': 'std::vector<gt::Arg>()', 'map-shared': 'nullptr',
-            'key-value': 'gt::Key()', 'substring-value': 'gt::Substring()'}
+            'vec-int': 'std::vector<int>{1, 2}', 'vec-arg-cref': 'std::vector<gt::Arg>()', 'map-shared': 'nullptr',
+            'key-value': 'gt::Key{}', 'substring-value': 'gt::Substring()'}
 
 RETURNS = {   # label -> (ret spec, expected out wraps (list of (kind, type text)), .m outputs)
     'void': (single(T('void')), [], 0),
@@ -172,6 +172,10 @@ def _build_module(kind, items, layout='support-first'):
         # namespace gt is opened twice: an earlier block with a class that has a method, then the block with everything
         early = D.cls('Early', [D.ctor('Early'), D.method(single(T('int')), 'early', [arg(T('int'), 'e')], 1)])
         return [D.ns('gt', [early]), D.ns('gt', support + [D.cls('Host', host_members)] + extra_classes + funcs)], exp
+    if layout == 'global-names-like-classes':
+        # unrelated enums in the enclosing (global) scope that are called like the classes used as parameter types
+        return [D.enum('Arg', ['A0', 'A1']), D.enum('Avoider', ['V0']), D.enum('Key', ['K0']),
+                D.ns('gt', support + [D.cls('Host', host_members)] + extra_classes + funcs)], exp
     if layout == 'support-last':
         # the enum and the argument class are declared after everything that uses them
         body = [D.cls('Host', host_members)] + extra_classes + funcs + support
@@ -497,6 +501,7 @@ def run(ctx):
         its = uses if kind != 'ctor' else [it for it in uses if it['ret'] == 'int']
         for i in range(0, len(its), per):
             cases.append({'kind': kind, 'items': its[i:i + per], 'scope': 'gt', 'layout': 'reopened-ns'})
+            cases.append({'kind': kind, 'items': its[i:i + per], 'scope': 'gt', 'layout': 'global-names-like-classes'})
     res = ctx.map(check_unit, cases, chunksize=1)
     ncall = sum(len(c['items']) for c in cases)
     return {
